@@ -376,7 +376,7 @@ impl Property for C10 {
         // (declared in sorted order or not: label values are positional in the declared order, whatever the names are)
         let names: Vec<&'static str> = if two { if src.chance(128) { vec!["b", "a"] } else { vec!["a", "b"] } } else { vec!["a"] };
         let odd = src.chance(50);
-        let pool: Vec<Tuple> = (match (two, odd) {
+        let mut pool: Vec<Tuple> = (match (two, odd) {
             (true, false) => T2,
             (false, false) => T1,
             (true, true) => T2B,
@@ -385,6 +385,13 @@ impl Property for C10 {
         .iter()
         .map(|t| t.iter().map(|s| s.to_string()).collect())
         .collect();
+        // a tenth of the single-label programs use two tuples whose keys agree in the low 16 bits (and a third, unrelated one)
+        if !two && src.chance(26) {
+            let pairs = crate::pools::fnv_low_bits_pairs();
+            let (a, b) = &pairs[src.below(pairs.len())];
+            pool = vec![vec![a.clone()], vec![b.clone()], vec!["x".to_string()]];
+            rep.class("tuples-with-keys-equal-in-the-low-16-bits");
+        }
         let ntuples = 2 + src.below(2);
         let pool = &pool[..ntuples.min(pool.len())];
         let kind = src.below(8);
